@@ -94,7 +94,7 @@ def check_aws(ctx):
     exe, err = vlib.build_c("drv_aws", "drv_aws.c",
                             ["aws/aws_sign.c", "alg/sha256.c", "util/hexify.c", "util/asprintf.c",
                              "util/warnp.c", "util/insecure_memzero.c"],
-                            wraps=["time"], asan=True, cpuconfig=cfg)
+                            wraps=["time", "malloc", "strdup"], asan=True, cpuconfig=cfg, cflags=["-fno-builtin-strdup", "-fno-builtin-malloc"])
     if not exe:
         ctx.fail(sub, "build", "", "C driver does not build: " + err)
         return
@@ -133,4 +133,34 @@ def check_aws(ctx):
     ctx.assumptions.append("gmtime_r/strftime/asprintf modelled for the conversions used (%Y %m %d %H %M %S, %s %d %%), years 1970..9999")
 
 
-SUBCHECKS = {"C19": [check_aws]}
+NALLOC = {"s3h": 6, "svc": 6, "ddb": 6, "s3q": 4}   # allocations per successful call (asprintf x3/4, strdup x2)
+
+
+def check_aws_allocfail(ctx):
+    """C14: refuse the k-th allocation inside an aws_sign_* call: it must return -1/NULL, not crash,
+    leak nothing (LeakSanitizer), and with k beyond the last allocation behave normally."""
+    sub = "aws.allocfail"
+    cfg = os.path.join(vlib.VERIF, "harness", "cpuconfig", "none.h")
+    exe, err = vlib.build_c("drv_aws", "drv_aws.c",
+                            ["aws/aws_sign.c", "alg/sha256.c", "util/hexify.c", "util/asprintf.c",
+                             "util/warnp.c", "util/insecure_memzero.c"],
+                            wraps=["time", "malloc", "strdup"], asan=True, cpuconfig=cfg, cflags=["-fno-builtin-strdup", "-fno-builtin-malloc"])
+    if not exe:
+        ctx.fail(sub, "build", "", "C driver does not build: " + err)
+        return
+    base = gen(ctx)[:ctx.n(40, 400)]
+    normal, _ = vlib.run_sharded(exe, base, env={"TZ": "UTC0"})
+    cases, want = [], []
+    for c, nrm in zip(base, normal):
+        n = NALLOC[c.split()[0]]
+        for k in range(1, n + 2):
+            cases.append("fail %d %s" % (k, c))
+            want.append("fail" if k <= n else nrm)
+    impl, st = vlib.run_sharded(exe, cases, env={"ASAN_OPTIONS": "detect_leaks=1", "TZ": "UTC0"})
+    vlib.sanitizer_reports(ctx, sub, st, "allocation failure inside aws_sign_*")
+    vlib.tri_compare(ctx, sub, cases, impl, want, want)
+    ctx.record(sub, cases, set(cases), "every allocation index k=1..n+1 of %d signing calls refused in turn; expected: failure for k<=n (n = 6 header variants, 4 query variant), normal result for k=n+1, no sanitizer/leak report" % len(base),
+               samples=[cases[0][:160]])
+
+
+SUBCHECKS = {"C19": [check_aws], "C14": [check_aws_allocfail]}
